@@ -1,6 +1,7 @@
 import Goyang.Model.Proto
 import Goyang.Model.ErrorSort
 import Goyang.Spec.ErrorSort
+import Goyang.Model.Cli
 /-
 Driver for the errorSort model (property C05).  Messages travel hex encoded (`-` = empty).
   sort <messages…>         -> `=` followed by the messages of `Model.ErrorSort.errorSort`
@@ -8,10 +9,51 @@ Driver for the errorSort model (property C05).  Messages travel hex encoded (`-`
   less <a> <b>             -> 1 | 0
   atoi <s>                 -> none | the integer
   fields <s>               -> the pieces of strings.SplitN(s, ":", 4)
+  tree <k> <tree>*k        -> hex of Model.Cli.doTree (what `goyang --format tree` prints for these entries)
+      tree = N name shown description nexts (kind nname)* rpc ro type|~ hasDir isList key ninp nout ndir tree*
+             (children in the order the Go map handed them out)
 -/
 open Goyang Goyang.Proto
 
 def decAll (fs : List String) : Option (List (List UInt8)) := fs.mapM decBytes
+
+open Goyang.Model.Cli in
+mutual
+def decTree : Nat → List String → Option (Tree × List String)
+  | 0, _ => none
+  | fuel + 1, "N" :: name :: shown :: desc :: nexts :: rest => do
+    let name ← decBytes name
+    let shown ← decBytes shown
+    let desc ← decBytes desc
+    let ne ← decNat nexts
+    let (exts, rest) ← decExts ne rest
+    match rest with
+    | rpc :: ro :: ty :: hasDir :: isList :: key :: ninp :: nout :: ndir :: rest =>
+      let ty ← if ty == "~" then some none else (decBytes ty).map some
+      let key ← decBytes key
+      let (inp, rest) ← decTrees fuel (← decNat ninp) rest
+      let (out, rest) ← decTrees fuel (← decNat nout) rest
+      let (dir, rest) ← decTrees fuel (← decNat ndir) rest
+      some (.mk { name := name, shown := shown, description := desc, exts := exts, isRpc := rpc == "1", readOnly := ro == "1",
+                  typeName := ty, hasDir := hasDir == "1", isList := isList == "1", key := key } inp out dir, rest)
+    | _ => none
+  | _, _ => none
+def decTrees : Nat → Nat → List String → Option (List Tree × List String)
+  | _, 0, toks => some ([], toks)
+  | 0, _ + 1, _ => none
+  | fuel + 1, n + 1, toks => do
+    let (t, rest) ← decTree fuel toks
+    let (ts, rest) ← decTrees fuel n rest
+    some (t :: ts, rest)
+def decExts : Nat → List String → Option (List (List UInt8 × List UInt8) × List String)
+  | 0, toks => some ([], toks)
+  | n + 1, k :: a :: rest => do
+    let k ← decBytes k
+    let a ← decBytes a
+    let (xs, rest) ← decExts n rest
+    some ((k, a) :: xs, rest)
+  | _ + 1, _ => none
+end
 
 def handle : List String → String
   | "sort" :: ms =>
@@ -33,6 +75,13 @@ def handle : List String → String
   | ["fields", s] =>
     match decBytes s with
     | some s => let (a, r) := Model.ErrorSort.fields s; " ".intercalate ((a :: r).map encBytes)
+    | none => "bad-op"
+  | "tree" :: k :: toks =>
+    match decNat k with
+    | some k =>
+      match decTrees (toks.length + k + 1) k toks with
+      | some (ts, []) => encBytes (Model.Cli.doTree ts)
+      | _ => "bad-op"
     | none => "bad-op"
   | _ => "bad-op"
 
